@@ -389,6 +389,22 @@ def rule_e(model, rep):
     rep.minimum(R, 1)
 
 
+def rule_e_oscrypt(model, rep):
+    """bcrypt consumes 72 bytes; crypt(3) implementations may refuse long passphrases outright (libxcrypt: 512 bytes and more),
+    so the OS backend must not hand the whole secret over"""
+    R = "C03.e-hashpw-72"
+    B = "passlib.handlers.bcrypt"
+    fn = model.func(B, "_OsCryptBackend._calc_checksum")
+    calls = [c for c in walk_no_nested(fn) if isinstance(c, ast.Call) and ast.unparse(c.func) == "safe_crypt" and c.args]
+    if len(calls) != 1:
+        rep.undecided(R, site(B, "_OsCryptBackend._calc_checksum"), f"{len(calls)} safe_crypt calls")
+        return
+    a = ast.unparse(calls[0].args[0])
+    rep.check(a in ("utf8_truncate(secret, 72)", "secret[:72]"), R, site(B, "_OsCryptBackend._calc_checksum") + " crypt() input", f"safe_crypt({a}, config)",
+              "the OS backend hands crypt() at most the 72 (+ up to 3, to end on a character boundary) bytes bcrypt uses",
+              witness="bcrypt.set_backend('os_crypt'); bcrypt.hash('a' * 512) raises InternalBackendError (libxcrypt refuses passphrases of 512+ bytes) while the bcrypt and builtin backends hash it; verify('a'*512, hash('a'*72)) raises too")
+
+
 def _bounded_72(unit, fn, call, arg):
     """arg is `X[:k]` with const k<=72, or a name whose last assignment before the call (same block chain) is such a slice."""
     def is_slice72(e):
@@ -877,6 +893,7 @@ def run(model, rep):
     rule_b(model, rep)
     rule_cd(model, rep)
     rule_e(model, rep)
+    rule_e_oscrypt(model, rep)
     rule_f(model, rep)
     rule_g(model, rep)
     rule_hi(model, rep)
